@@ -20,6 +20,10 @@ var c03Durations = []string{
 	"-1s", "-1ns", "-5s", "-24h", "0.5s", "999ms", "1ns", "1.9999s", "1s", "2s", "65535s", "65536s", "18h12m16s",
 	"4294967294s", "4294967295s", "4294967296s", "1193046h", "1193047h", "2562047h", "infinite", "", "auto",
 	"100000h", "8589934592s", "1h0m0.000000001s",
+	// spellings a parser might come to accept: no unit, a sign, a space, upper
+	// case, a decimal comma (today all rejected; if accepted, the range rules
+	// apply to them like to any other)
+	"-30", "4294967296", "86400", "0", "+5s", " 30s", "30S", "1,5s", "1e3s", "0x10s", "1d",
 }
 
 var c03Pref64 = []string{
